@@ -5,8 +5,8 @@ import random
 import re
 import sys
 
-from common import compare_cases, standard_main, run_model, run_cli_many, parse_text_spectrum, is_panic
-from callsets import render_vcf, vcf_to_bcf, model_records
+from common import compare_cases, standard_main, run_model, run_impl, run_cli_many, parse_text_spectrum, is_panic
+from callsets import render_vcf, vcf_to_bcf, model_records, bcf_encode_hts, gt_vector, bgzf_compress
 
 RULE = ("every GT string over alleles {., 0,1,2,3,7,10} x separators {/,|} x ploidy 1..3 (exhaustive: 7 + 2*49 + 4*343 = "
         "1477 strings, plus the whole-field '.'): (a) classification function vs model; (b) each GT in a selected column of a "
@@ -30,6 +30,72 @@ def all_gts():
     return list(dict.fromkeys(gts))
 
 
+def container_family(rep, tier, rng, gts):
+    """the decoding step in front of the classification: every GT as the text of a VCF sample (alone and next to other
+    FORMAT values) and as the int8 vector of a BCF record laid out as htslib does (padded to the widest genotype of the
+    record), read by the real readers (`genos`), against the model of the two decoders (Container.v); the two containers
+    must classify alike; raw int8 vectors outside htslib's layout and malformed GT texts against the model."""
+    ploidy = lambda g: 1 + g.count("/") + g.count("|")
+    impl_lines, model_lines, labels = [], [], []
+
+    def add(kind, gts_rows, container, fields_rows, label):
+        impl_lines.append("genos " + container.hex())
+        model_lines.append("genosm %s %s" % (kind, ";".join(",".join(f.hex() for f in row) for row in fields_rows)))
+        labels.append(label)
+
+    valid = [g for g in gts]
+    rows = []
+    # rows of three columns: the GT under test, a diploid call, another GT of the alphabet (mixed ploidy within a record)
+    for g in valid:
+        rows.append([g, "0/1", rng.choice(valid)])
+    rows += [[".", ".", "."], ["0", "1", "."], [".", "0/1/1", "1"], ["./.", ".", "1|1"]]
+    for bi in range(0, len(rows), 6):
+        chunk = rows[bi:bi + 6]
+        vcf = render_vcf(["a", "b", "c"], chunk)
+        add("vcf", chunk, vcf, [[g.encode() for g in r] for r in chunk], "vcf GT-only " + ";".join(",".join(r) for r in chunk))
+        vcf2 = render_vcf(["a", "b", "c"], chunk, extra_fields=True, dot_fields=True)
+        add("vcf", chunk, vcf2, [[g.encode() for g in r] for r in chunk], "vcf GT:DP:GQ " + ";".join(",".join(r) for r in chunk))
+        vecs = [[gt_vector(g, max(ploidy(x) for x in r)) for g in r] for r in chunk]
+        for nm, v in (("bcf(htslib layout)", vcf), ("bcf(htslib layout, GT:DP:GQ)", vcf2)):
+            b = bcf_encode_hts(v)
+            add("bcf", chunk, b, vecs, nm + " " + ";".join(",".join(r) for r in chunk))
+            if bi % 60 == 0:
+                add("bcf", chunk, bgzf_compress(b), vecs, "bgzf " + nm + " " + ";".join(",".join(r) for r in chunk))
+    nvalid = len(impl_lines)
+    # malformed / unusual GT texts, one record each (a record error ends the stream)
+    odd = ["|0/1", "/0|1", "+1/0", "00/1", "0//1", "/", "0/", "|", "a/b", "-1/0", "0/1/", "01", "1/+0", "./+1", "..", "./..", "0/.1",
+           "18446744073709551615/0", "18446744073709551616/0", "0|18446744073709551616", "99999999999999999999", "0 /1", "0/x", "|.", "/1", "|1/1"]
+    for t in odd:
+        vcf = render_vcf(["a", "b"], [[t, "0/1"], ["0/0", "1/1"]])
+        add("vcf", None, vcf, [[t.encode(), b"0/1"], [b"0/0", b"1/1"]], "vcf odd GT text %r" % t)
+    # raw int8 vectors (not only htslib's): missing (0x80) and end-of-vector (0x81) anywhere, negative values, phased bits
+    alphabet = [0, 1, 2, 3, 4, 5, 6, 7, 0x10, 0x7E, 0x7F, 0x80, 0x81, 0xFF, 0xFE]
+    import itertools as it
+    vectors = [bytes(v) for w in (1, 2) for v in it.product(alphabet, repeat=w)]
+    vectors += [bytes(rng.choice(alphabet) for _ in range(3)) for _ in range(150 if tier == "quick" else 1500)]
+    base = render_vcf(["a", "b"], [["0/1", "0/1"], ["0/0", "1/1"]])
+    for v in vectors:
+        other = bytes([2, 4] + [0x81] * (len(v) - 2))[:max(len(v), 1)] if len(v) >= 2 else bytes([2])
+        b = bcf_encode_hts(base, gt_override={0: [v, other]})
+        add("bcf", None, b, [[v, other], [gt_vector("0/0", 2), gt_vector("1/1", 2)]], "bcf raw GT vector %s" % v.hex())
+    mo = run_model(model_lines)
+    im = run_impl(impl_lines)
+    for k, (lab, m, i) in enumerate(zip(labels, mo, im)):
+        rep.count("container-decoding:" + lab.split()[0], lab, True)
+        if m != i:
+            rep.fail(kind="model-impl-disagreement", cls="container:" + lab.split()[0] + (":odd" if k >= nvalid else ""), case=impl_lines[k][:100000], model_case=model_lines[k],
+                     expected=m, observed=i, detail="the genotype readers (VCF text / BCF vector -> classification) differ from the model on: " + lab[:300])
+    # the same genotypes must classify alike from both containers (theorem record_container_independent, at run time)
+    by = {}
+    for lab, i in zip(labels[:nvalid], im[:nvalid]):
+        by.setdefault(lab.rsplit(" ", 1)[-1], []).append((lab, i))      # the chunk of genotypes is the last word of the label
+    for key, obs in by.items():
+        if len(set(o for _, o in obs)) > 1:
+            rep.fail(kind="property-oracle", cls="container:vcf-vs-bcf", case=key, observed={l[:60]: o for l, o in obs},
+                     expected="one classification for all containers", detail="the same genotypes classified differently depending on the container")
+    rep.coverage["container_cases"] = len(impl_lines)
+
+
 def check(rep, tier, seed):
     rng = random.Random(seed)
     gts = all_gts()
@@ -37,6 +103,8 @@ def check(rep, tier, seed):
     rep.coverage["gt_strings"] = len(gts)
     compare_cases(rep, "classify-function", ["classify %s" % g for g in gts], nontrivial=lambda c, m: "0/0" not in c,
                   classify=lambda c, m, i: "classify:" + m.split()[0], spec=True, both_builds=(tier == "thorough"))
+
+    container_family(rep, tier, rng, gts)
 
     # interaction of the classes within one record: every triple over {called, het, missing, multiallelic, haploid,
     # triploid} in three selected columns (a non-diploid genotype must fail the record wherever it stands, whatever the
